@@ -105,12 +105,42 @@ def fresh(prefix, sort):
     return z3.Const('%s!%d' % (prefix, next(_fresh_counter)), sort)
 
 
+class GlobalFacts:
+    """unconditional truths about the symbolic inputs of the current harness run (hash axioms, invariants and
+    congruence of the lazily sampled initial state, codec facts).  They are not path dependent, so they live outside
+    the path conditions and are added to every solver query."""
+
+    def __init__(self):
+        self.reset()
+
+    def reset(self):
+        self.facts = []
+        self.version = 0
+        self.memo = {}
+        self.distinct = set()  # pairs of term texts the harness declares different (e.g. hashes of different txs)
+
+    def declare_distinct(self, a, b):
+        self.distinct.add((a.sexpr(), b.sexpr()))
+        self.distinct.add((b.sexpr(), a.sexpr()))
+        self.add(a != b)
+
+    def add(self, c):
+        if z3.is_true(c):
+            return
+        self.facts.append(c)
+        self.version += 1
+
+
+G = GlobalFacts()
+
+
 class State:
-    __slots__ = ('heap', 'pc', 'events', 'counters', 'notes', 'facts')
+    __slots__ = ('heap', 'pc', 'events', 'counters', 'notes', 'facts', 'models')
 
     def __init__(self):
         self.heap = {}
         self.pc = []
+        self.models = []  # cached solver models that satisfy the whole pc (feasibility shortcuts)
         self.facts = []  # unconditional truths about the inputs (hash axioms, sampled-state invariants): kept by joins
         self.events = []
         self.counters = {}
@@ -124,6 +154,7 @@ class State:
         s.counters = dict(self.counters)
         s.notes = dict(self.notes)
         s.facts = list(self.facts)
+        s.models = list(self.models)
         return s
 
     def alloc(self, v=UNINIT):
@@ -131,15 +162,20 @@ class State:
         self.heap[c] = v
         return c
 
+    def _filter_models(self, cond):
+        if self.models:
+            self.models = [m for m in self.models if z3.is_true(m.eval(cond, model_completion=True))]
+
     def assume(self, cond):
         if not z3.is_true(cond):
             self.pc.append(cond)
+            self._filter_models(cond)
 
     def assume_fact(self, cond):
         """a fact about the symbolic inputs that holds on every path (never path-dependent)"""
         if not z3.is_true(cond):
-            self.pc.append(cond)
-            self.facts.append(cond)
+            G.add(cond)
+            self._filter_models(cond)
 
     def count(self, key, n=1):
         self.counters[key] = self.counters.get(key, 0) + n
@@ -249,8 +285,12 @@ def val_eq(a, b):
         return z3.BoolVal(a is b)
     if isinstance(a, str) or isinstance(b, str) or isinstance(a, bytes) or isinstance(b, bytes):
         return z3.BoolVal(a == b)
+    if LEAF_EQ is not None and isinstance(a, z3.ExprRef) and isinstance(b, z3.ExprRef):
+        return LEAF_EQ(a, b)
     return a == b
 
+
+LEAF_EQ = None  # set by models: equality of leaves that applies hash injectivity / disjointness as a rewrite
 
 _ADTS = None  # set by Interp
 
@@ -511,12 +551,22 @@ class Interp:
         return None
 
     # ---- solver -------------------------------------------------------------
-    def check_sat(self, pc, extra=None, timeout=None):
+    def check_sat(self, pc, extra=None, timeout=None, want_model=False):
         """incremental: one solver whose assertion stack mirrors the current path-condition prefix"""
         t0 = time.time()
-        if self._inc is None:
+        if self._inc is None or self._inc_nfacts > len(G.facts) or self._inc_gid != id(G.facts):
             self._inc = z3.Solver()
             self._inc_stack = []
+            self._inc_nfacts = 0
+            self._inc_gid = id(G.facts)
+        if self._inc_nfacts < len(G.facts):
+            # new global facts go to the base level: drop the path-condition scopes, add, let them be re-pushed
+            if self._inc_stack:
+                self._inc.pop(len(self._inc_stack))
+                del self._inc_stack[:]
+            for c in G.facts[self._inc_nfacts:]:
+                self._inc.add(c)
+            self._inc_nfacts = len(G.facts)
         s = self._inc
         stack = self._inc_stack
         n = 0
@@ -535,6 +585,7 @@ class Interp:
             s.add(extra)
         r = s.check()
         reason = s.reason_unknown() if r == z3.unknown else ''
+        model = s.model() if (want_model and r == z3.sat) else None
         s.pop()
         self.stats['solver_calls'] += 1
         dt = time.time() - t0
@@ -543,9 +594,14 @@ class Interp:
             self.trace_solver.append((round(dt, 3), len(pc), str(r), str(extra)[:100].replace('\n', ' ')))
         if r == z3.unknown:
             raise Inconclusive('solver returned unknown (%s) during path exploration' % reason)
+        if model is not None:
+            return model
         return r == z3.sat
 
     _inc = None
+    _inc_version = -1
+    _inc_nfacts = 0
+    _inc_gid = 0
 
     def feasible(self, st, cond):
         cond = simp(to_bool(cond))
@@ -555,10 +611,32 @@ class Interp:
             return False
         if self.lazy:
             return True
+        if self.lazy_rx is not None and self._fn_stack and self.lazy_rx.search(self._fn_stack[-1]):
+            return True
+        for m in st.models:
+            if z3.is_true(m.eval(cond, model_completion=True)):
+                self.stats['model_hits'] = self.stats.get('model_hits', 0) + 1
+                return True
         try:
-            return self.check_sat(st.pc, cond, timeout=self.feas_timeout)
+            t0 = time.time()
+            key = self._fn_stack[-1][-50:] if self._fn_stack else '?'
+            r = self.check_sat(st.pc, cond, timeout=self.feas_timeout, want_model=True)
+            e = self.feas_by_fn.setdefault(key, [0, 0.0])
+            e[0] += 1
+            e[1] += time.time() - t0
+            if r is not False and r is not True:
+                if len(st.models) < 6:
+                    st.models.append(r)
+                return True
+            return r
         except Inconclusive:
-            # undecided within the (short) feasibility budget: keep the branch.  This only over-approximates the
+            try:
+                r = self.check_sat(st.pc, cond, timeout=self.feas_timeout * 12)
+                self.stats['feas_retry'] = self.stats.get('feas_retry', 0) + 1
+                return bool(r) if isinstance(r, bool) else True
+            except Inconclusive:
+                pass
+            # undecided within the feasibility budget: keep the branch.  This only over-approximates the
             # set of explored paths; obligations re-decide reachability with the full budget.
             self.stats['feas_unknown'] = self.stats.get('feas_unknown', 0) + 1
             return True
@@ -1110,6 +1188,17 @@ class Interp:
 
     def exec_fn(self, st, fn, args, depth=0):
         mp.lower_function(fn)
+        self._fn_stack.append(fn.name)
+        try:
+            return self._exec_fn(st, fn, args, depth)
+        finally:
+            self._fn_stack.pop()
+
+    _fn_stack = []
+    lazy_rx = None  # functions explored without feasibility pruning (small, total, joined at return)
+    feas_by_fn = {}
+
+    def _exec_fn(self, st, fn, args, depth=0):
         self.functions_encoded.add('%s::%s' % (fn.crate, fn.name))
         if len(args) != fn.nparams:
             raise Unsupported('arity mismatch calling %s: %d args' % (fn.name, len(args)))
@@ -1269,19 +1358,7 @@ class Interp:
         first = rets[0][0]
         new = first.fork()
         new.pc = first.pc[:base_len] + [simp(z3.Or(conds))]
-        seen = set(id(c) for c in new.pc)
-        facts = list(first.facts)
-        fseen = set(id(c) for c in facts)
-        for s, _ in rets:
-            for c in s.facts:
-                if id(c) not in fseen:
-                    fseen.add(id(c))
-                    facts.append(c)
-        for c in facts:
-            if id(c) not in seen:
-                seen.add(id(c))
-                new.pc.append(c)
-        new.facts = facts
+        new.models = []
         # cells to keep: those alive at entry + those reachable from a returned value / from a kept cell
         keep = set(base_cells)
         for s, r in rets:
@@ -1324,13 +1401,7 @@ class Interp:
                                     dup = x
                                     break
                         if dup is not None:
-                            # the same key sampled independently on two branches: both samples denote one entry
-                            same.append((k, dup, item))
                             continue
-                        if k.startswith('base:'):
-                            for x in cur:
-                                if not any(x is y for y in v):
-                                    cross.append((k[5:], x, item))
                         cur.append(item)
                     notes[k] = tuple(cur)
         new.notes = notes
